@@ -32,6 +32,10 @@ REQUIRED = ["KV.C20.read_eq", "KV.C20.write_read", "KV.C20.write_frame", "KV.C20
             "KV.C20.inserted_found", "KV.C20.auto_inserted_found", "KV.C20.firstEmpty_diverges_iff",
             "KV.C20.sized_table_holds", "KV.C20.probe_reads_in_range", "KV.C20.double_frame",
             "KV.C20.run_with_double_refines_map",
+            # vocabularies on top of the tables
+            "KV.C20.vocab_ids_indep", "KV.C20.vocab_ids_first_occurrence", "KV.C20.vocab_initial_arg_ok",
+            "KV.C20.hash_inj_transfer", "KV.C20.probing_vocab_correct", "KV.C20.probing_vocab_sized",
+            "KV.C20.probing_vocab_insert_ids", "KV.C20.sorted_vocab_correct", "KV.C20.joint_sort_unique",
             "KV.C20.roundBuckets", "KV.C20.double_without_rollover_loses"]
 
 
